@@ -98,6 +98,10 @@ def generate(ck):
         with_pb = bool(length >= 1 and dtype in ("f8", "f4") and rng.random() < 0.5 and pb < 30000)
         if with_pb:
             p[int(rng.integers(0, length))] = pb
+            # ... and its close neighbours on both sides, p_b (1 -/+ 10^-k), k = 3..12
+            for j in range(length):
+                if rng.random() < 0.35 and p[j] != pb:
+                    p[j] = pb * (1 + float(rng.choice([-1, 1])) * 10.0 ** (-int(rng.integers(3, 13))))
         if dtype in ("i8", "i4"):
             p = np.round(p)
             if length >= 2 and fn in OILY:
